@@ -143,10 +143,13 @@ DataCmd(S, c, cmd) ==
 \* every stored object of database i, expired or not, counts for the emulator's DBSIZE
 DbSize(S, c, a) ==
     LET i == S.conn[c].db
-        live == Live(S.dbs[i], S.now)
+        \* (counted on the connection's own database object; under D_DBSIZE_COUNTS_EXPIRED_KEYS the emulator read the
+        \*  counter of the database table's current object instead)
+        db == IF On("D_DBSIZE_COUNTS_EXPIRED_KEYS") THEN S.dbs[i] ELSE DbOf(S, c)
+        live == Live(db, S.now)
     IN  IF Len(a) # 0 THEN SOk(S, EArg)
-        ELSE IF On("D_DBSIZE_COUNTS_EXPIRED_KEYS") /\ DOMAIN live # DOMAIN S.dbs[i]
-             THEN SDev(S, RInt(Cardinality(DOMAIN S.dbs[i])), "D_DBSIZE_COUNTS_EXPIRED_KEYS")
+        ELSE IF On("D_DBSIZE_COUNTS_EXPIRED_KEYS") /\ DOMAIN live # DOMAIN db
+             THEN SDev(S, RInt(Cardinality(DOMAIN db)), "D_DBSIZE_COUNTS_EXPIRED_KEYS")
         ELSE SOk(S, RInt(Cardinality(DOMAIN live)))
 
 Select(S, c, a) ==
